@@ -70,7 +70,8 @@ func genPlan(t *rapid.T) Plan {
 		tx.NoWrite = false
 		switch k := rapid.IntRange(0, 29).Draw(t, "kind"); {
 		case k < 6:
-			p.Steps = append(p.Steps, Step{Kind: KAcquire})
+			// N=1: the request arrives while a local transaction of the primary is in flight
+			p.Steps = append(p.Steps, Step{Kind: KAcquire, Tx: tx, N: rapid.IntRange(0, 2).Draw(t, "during_write") / 2})
 		case k < 14:
 			p.Steps = append(p.Steps, Step{Kind: KRCommit, Tx: tx})
 		case k < 17:
@@ -276,7 +277,43 @@ func runPlan(c *pbt.Case, p Plan) {
 				lockFile = f
 			}
 			var lerr error
-			for attempt := 0; attempt < 3; attempt++ { // an application retries an interrupted fcntl
+			if st.N == 1 {
+				// The request reaches the primary while one of its own transactions holds
+				// the write lock; the halt is granted only after that transaction is over,
+				// at the position it produced.
+				done := make(chan error, 1)
+				started := false
+				ops := 0
+				pr.SetOnOp(dbName, func(op string) {
+					if ops++; ops == 3 && !started {
+						started = true
+						go func() {
+							ctx, cancel := context.WithTimeout(context.Background(), 10*time.Second)
+							defer cancel()
+							done <- lockFile.SetLkWait(ctx, mount.WrLck, 72, 72)
+						}()
+						time.Sleep(3 * time.Millisecond)
+					}
+				})
+				tx := st.Tx
+				tx.Rollback = false
+				wr, werr := pr.TryWrite(dbName, tx)
+				pr.SetOnOp(dbName, nil)
+				if werr != nil {
+					c.Failf("C13/harness", "step %d: %v", i, werr)
+				}
+				pr.CloseConns()
+				if started {
+					lerr = <-done
+					c.Label("acquire-during-primary-write")
+					if wr.Committed {
+						c.Label("acquire-waited-for-a-commit")
+					}
+				} else {
+					lerr = fmt.Errorf("not attempted")
+				}
+			}
+			for attempt := 0; attempt < 3 && (st.N != 1 || lerr != nil); attempt++ { // an application retries an interrupted fcntl
 				ctx, cancel := context.WithTimeout(context.Background(), 10*time.Second)
 				lerr = lockFile.SetLkWait(ctx, mount.WrLck, 72, 72)
 				cancel()
